@@ -863,7 +863,11 @@ namespace ip {
 
 				const bool is_writeable = m_bytes_in_flight + m_mss <= m_cwnd;
 
-				if (!was_writeable && is_writeable)
+				// a writer may have been blocked before the window grew, or before a
+				// drop released in-flight bytes: wake it whenever there is room now
+				// (it goes back to waiting if there is not enough)
+				(void)was_writeable;
+				if (is_writeable)
 					maybe_wakeup_writer();
 
 				return;
